@@ -274,7 +274,9 @@ def run(facts, rep, ctx):
                             shape_bad = "a path component is appended in the middle"
             if not recv_ok:
                 shape_bad = "appends go to something other than the fresh result string"
-            if first_k != 0 or last_k != 1:
+            if (first_k != 0 or last_k != 1) and not ap:
+                shape_unknown = shape_unknown or "no appends to a fresh string on an Ok path"
+            elif first_k != 0 or last_k != 1:
                 shape_bad = shape_bad or "result is not [directory part, marker, final component] (components %s, %s)" % (first_k, last_k)
             # returned value must be that string
             rv = pp.ret[4][0] if pp.ret[0] == "agg" else None
@@ -302,7 +304,7 @@ def run(facts, rep, ctx):
                 shape_bad = "split rows (parent empty, first/last, origin) are %s; specified: empty parent -> (file name, \"\"), else (parent, file name)" % sorted(direct_rows)
             else:
                 direct_ok.append(cb.name)
-        if shape_bad:
+        if shape_bad and not shape_unknown:
             rep.violation(R2, cb.name, "shape", "%s: %s" % (game, shape_bad), "%s:%s" % (cb.file, cb.line))
         elif shape_unknown:
             rep.inconc(R2, "%s: %s" % (game, shape_unknown))
